@@ -254,8 +254,15 @@ func ParseParameters(query string) []oid.Oid {
 		}
 
 		position, _ := strconv.Atoi(match[1]) //nolint:errcheck
-		if position > len(parameters) {
-			parameters = parameters[:position]
+		// NOTE: the number of parameters is limited by the 16-bit parameter
+		// count used within the wire protocol. Out of range positions (which
+		// are saturated by Atoi) are capped to the protocol limit.
+		if position > buffer.MaxPreparedStatementArgs {
+			position = buffer.MaxPreparedStatementArgs
+		}
+
+		for position > len(parameters) {
+			parameters = append(parameters, 0)
 		}
 	}
 
